@@ -15,6 +15,8 @@ pub enum Kind {
     Pair,
     Unit,
     U64,
+    Big72,
+    Al32,
 }
 
 #[derive(Clone, Debug, Serialize, Deserialize, PartialEq, Eq, Hash)]
@@ -29,7 +31,7 @@ pub struct Case {
 macro_rules! lat_const {
     ($n:expr, $N:ident, $K:ident, $body:expr) => {
         lat_const!(@go $n, $N, $K, $body, [0 U0, 1 U1, 2 U2, 3 U3, 4 U4, 5 U5, 7 U7, 8 U8, 16 U16, 17 U17, 31 U31, 32 U32, 33 U33, 63 U63, 64 U64,
-            100 U100, 255 U255, 256 U256, 1000 U1000, 1024 U1024])
+            100 U100, 255 U255, 256 U256, 1000 U1000, 1024 U1024, 2048 U2048, 4096 U4096])
     };
     (@go $n:expr, $N:ident, $K:ident, $body:expr, [$($num:literal $ty:ident),*]) => {
         match $n {
@@ -38,7 +40,7 @@ macro_rules! lat_const {
         }
     };
 }
-const LENS: &[usize] = &[0, 1, 2, 3, 4, 5, 7, 8, 16, 17, 31, 32, 33, 63, 64, 100, 255, 256, 1000, 1024];
+const LENS: &[usize] = &[0, 1, 2, 3, 4, 5, 7, 8, 16, 17, 31, 32, 33, 63, 64, 100, 255, 256, 1000, 1024, 2048, 4096];
 
 fn vals<T: Elem>(s: &[T]) -> Vec<u32> {
     s.iter().map(|x| x.get()).collect()
@@ -66,6 +68,30 @@ where
                 (c.len(), r.len())
             })
         };
+        // slices of zero-length arrays: from_chunks / into_chunks keep address and count whatever the count is
+        for m in [0usize, 1, 3] {
+            let mut native: Vec<[T; K]> = (0..m).map(|_| core::array::from_fn(|_| T::mk(0))).collect();
+            let p = native.as_ptr() as usize;
+            let g = GenericArray::<T, N>::from_chunks(&native);
+            if g.len() != m || g.as_ptr() as usize != p {
+                return Err(format!("from_chunks with N = 0: {} arrays at {:#x}, expected {m} at the source address", g.len(), g.as_ptr() as usize));
+            }
+            let back = GenericArray::<T, N>::into_chunks(g);
+            if back.len() != m || back.as_ptr() as usize != p {
+                return Err(format!("into_chunks with N = 0: {} arrays, expected {m}", back.len()));
+            }
+            if GenericArray::<T, N>::slice_from_chunks(g).len() != 0 {
+                return Err("slice_from_chunks with N = 0 is not empty".into());
+            }
+            let gm = GenericArray::<T, N>::from_chunks_mut(&mut native);
+            if gm.len() != m || gm.as_ptr() as usize != p {
+                return Err(format!("from_chunks_mut with N = 0: {} arrays, expected {m}", gm.len()));
+            }
+            let bm = GenericArray::<T, N>::into_chunks_mut(gm);
+            if bm.len() != m || bm.as_ptr() as usize != p {
+                return Err(format!("into_chunks_mut with N = 0: {} arrays, expected {m}", bm.len()));
+            }
+        }
         return match (l, r) {
             (0, Ok((0, 0))) => Ok(()),
             (0, Ok(x)) => Err(format!("N = 0 with an empty slice gave lengths {:?}, expected two empty results", x)),
@@ -198,6 +224,8 @@ pub fn exec(case: &Case, acc: &mut Acc) -> Result<(), String> {
         Kind::Pair => exec_typed::<(u8, u16)>(case, acc),
         Kind::Unit => exec_typed::<()>(case, acc),
         Kind::U64 => exec_typed::<u64>(case, acc),
+        Kind::Big72 => exec_typed::<harness::registry::Big72>(case, acc),
+        Kind::Al32 => exec_typed::<harness::registry::Al32>(case, acc),
     }
 }
 
@@ -214,7 +242,7 @@ pub fn main() {
     }
     let mut g = vec![];
     let mut x = args.seed.wrapping_mul(0x9E37_79B9_7F4A_7C15) | 1;
-    for kind in [Kind::U8, Kind::U32, Kind::Pair, Kind::Unit, Kind::U64] {
+    for kind in [Kind::U8, Kind::U32, Kind::Pair, Kind::Unit, Kind::U64, Kind::Big72, Kind::Al32] {
         for &n in LENS {
             let ls: Vec<usize> = if n <= 64 { (0..=4 * n + 3).collect() } else { vec![0, 1, n - 1, n, n + 1, 2 * n - 1, 2 * n, 2 * n + 1, 4 * n + 3] };
             for l in ls {
@@ -241,7 +269,7 @@ pub fn main() {
         Report {
             prop: PROP,
             level: "exploration",
-            rule: "run-time half: case = (N in {0,1,2,3,4,5,7,8,16,17,31,32,33,63,64,100,255,256,1000,1024}, every L in 0..=4N+3 for N <= 64 and nine boundary L beyond, element kind u8/u32/(u8,u16)/()/u64, shared or mutable). \
+            rule: "run-time half: case = (N in {0,1,2,3,4,5,7,8,16,17,31,32,33,63,64,100,255,256,1000,1024,2048,4096}, every L in 0..=4N+3 for N <= 64 and nine boundary L beyond, element kind u8/u32/(u8,u16)/()/u64/72-byte [u64;9]/32-byte-aligned, shared or mutable). \
                    Oracle: std's chunks_exact(N) + remainder(): chunk count floor(L/N), chunk i at the source address + i*N elements, remainder at + floor(L/N)*N with length L mod N; slice_from_chunks is the inverse (same address, floor(L/N)*N elements); from_chunks / into_chunks (and _mut) return the same address and count; writes through the mutable forms land in the source; N = 0: empty -> two empty results, non-empty -> panic. Only addresses and lengths are inspected before results are known to be in bounds. \
                    non-trivial = L not a multiple of N, or N = 0, or at least two chunks; distinct = distinct case tuples",
             exhaustive: false,
